@@ -460,7 +460,7 @@ def _baseline_symbols():
 
 
 class Module:
-    def __init__(self, name: str, path: str, src: str):
+    def __init__(self, name: str, path: str, src: str, inline: bool = True):
         self.name = name  # 'rich.style'
         self.short = name.split(".", 1)[1] if "." in name else name  # 'style'
         self.path = path
@@ -468,9 +468,11 @@ class Module:
         self.src = src
         self.tree = ast.parse(src, filename=path)
         if os.environ.get("SA_NO_NORMALIZE") != "1":
-            if os.environ.get("SA_NO_INLINE") != "1":
+            self.inlined = False
+            if inline and os.environ.get("SA_NO_INLINE") != "1":
                 from .inliner import inline_module
                 self.tree = inline_module(self.tree, _baseline_symbols().get(self.relpath))
+                self.inlined = bool(getattr(self.tree, "_sa_inlined", False))
             self.tree = normalize_tree(self.tree)
         self.functions: Dict[str, FuncInfo] = {}
         self.classes: Dict[str, ClassInfo] = {}
@@ -630,11 +632,13 @@ class Module:
 
 
 class Repo:
-    def __init__(self, root: Optional[str] = None, overrides: Optional[Dict[str, str]] = None):
+    def __init__(self, root: Optional[str] = None, overrides: Optional[Dict[str, str]] = None, inline: bool = True):
         """overrides: {'rich/style.py': source} analysed instead of the file on disk (in-memory
         variants for the sensitivity sweep; never written, never executed)."""
         self.root = root or REPO_ROOT
         overrides = overrides or {}
+        self.overrides = overrides
+        self.inline = inline
         self.pkgdir = os.path.join(self.root, PKG)
         if not os.path.isdir(self.pkgdir):
             raise AnchorVanished(f"package directory {self.pkgdir} not found")
@@ -652,11 +656,21 @@ class Repo:
                 with open(path, encoding="utf-8") as f:
                     src = f.read()
             try:
-                m = Module(name, path, src)
+                m = Module(name, path, src, inline=inline)
             except SyntaxError as e:
                 raise AnalysisError(f"cannot parse {path}: {e}")
             m.relpath = os.path.relpath(path, self.root)
             self.modules[name] = m
+
+    @property
+    def inlined_any(self) -> bool:
+        return any(getattr(m, "inlined", False) for m in self.modules.values())
+
+    def plain_view(self) -> "Repo":
+        """the same sources without procedure inlining (built once, on demand)"""
+        if not hasattr(self, "_plain"):
+            self._plain = Repo(self.root, self.overrides, inline=False)
+        return self._plain
 
     def mod(self, short: str) -> Module:
         name = PKG if short in ("", "__init__") else PKG + "." + short
